@@ -217,3 +217,64 @@ Proof.
   split; intros [x [Hm Hin]]; exists x; (split; [exact Hm|]);
     rewrite !in_app_iff, !in_repeat in *; intuition.
 Qed.
+
+(* the same for every range that cannot mix zero with a positive count *)
+Theorem ping_range_stable mn mx n1 n2 :
+  ping_range_ok mn mx = true ->
+  draw_ok mn mx (Z.of_nat n1) = true -> draw_ok mn mx (Z.of_nat n2) = true ->
+  forall k nC nPad, (nC <> O) ->
+    frame_set (built k n1 nC nPad) = frame_set (built k n2 nC nPad).
+Proof.
+  intros Hok H1 H2 k nC nPad HC.
+  destruct (draw_ok mn mx 0) eqn:D0.
+  - (* zero can be drawn: then nothing else can *)
+    assert (Hz : forall n, draw_ok mn mx (Z.of_nat n) = true -> n = O).
+    { intros n H. unfold ping_range_ok in Hok. rewrite D0 in Hok. cbn [negb orb] in Hok.
+      unfold draw_ok in H, D0. destruct (Z.leb_spec mx mn) as [Hle|Hlt].
+      - apply Z.eqb_eq in H, D0. lia.
+      - apply Z.leb_le in Hok. apply andb_true_iff in H as [_ H]. apply Z.ltb_lt in H. lia. }
+    rewrite (Hz n1 H1), (Hz n2 H2). reflexivity.
+  - (* zero cannot be drawn: every build has a PING *)
+    assert (Hpos : forall n, draw_ok mn mx (Z.of_nat n) = true -> n <> O).
+    { intros n H E. subst n. change (Z.of_nat 0) with 0 in H. congruence. }
+    apply frame_set_ext. intros t. unfold built, frame_types, with_frames, rf_types. cbn [flat_map kFrames].
+    rewrite !app_nil_r, !in_map_iff.
+    pose proof (Hpos n1 H1). pose proof (Hpos n2 H2).
+    split; intros [x [Hm Hin]]; exists x; (split; [exact Hm|]);
+      rewrite !in_app_iff, !in_repeat in *; intuition.
+Qed.
+
+(* ... and a range that can mix them is exactly one that is not ok (for the ranges a uint8 pair can give) *)
+Lemma ping_range_not_ok mn mx : 0 <= mn -> ping_range_ok mn mx = false ->
+  draw_ok mn mx 0 = true /\ draw_ok mn mx (Z.of_nat 1) = true.
+Proof.
+  intros Hmn H. unfold ping_range_ok in H.
+  apply orb_false_iff in H as [H H3]. apply orb_false_iff in H as [H1 H2].
+  apply negb_false_iff in H1. split; [exact H1|].
+  apply Z.leb_gt in H2, H3. unfold draw_ok in *. destruct (Z.leb_spec mx mn); [lia|].
+  apply andb_true_iff in H1 as [Ha _]. apply Z.leb_le in Ha.
+  change (Z.of_nat 1) with 1. apply andb_true_iff. split; [apply Z.leb_le | apply Z.ltb_lt]; lia.
+Qed.
+
+Theorem ping_mix_differs mn mx : 0 <= mn -> ping_range_ok mn mx = false ->
+  draw_ok mn mx 0 = true /\ draw_ok mn mx (Z.of_nat 1) = true /\
+  forall k nC nPad ch w,
+    fp_features (built k 0 nC nPad) ch w <> fp_features (built k 1 nC nPad) ch w.
+Proof.
+  intros Hmn H. destruct (ping_range_not_ok mn mx Hmn H) as [H0 H1].
+  split; [exact H0|]. split; [exact H1|]. exact (fp_not_invariant mn mx 0%nat H0 H1).
+Qed.
+
+(** The built-in parrots (table generated from QUICID2Spec of every built-in QUICID) *)
+Lemma parrots_ping_ranges_ok :
+  forallb (fun r => ping_range_ok (fst r) (snd r)) uspec_parrot_ping_ranges = true.
+Proof. reflexivity. Qed.
+
+Theorem parrots_ping_stable : forall r, In r uspec_parrot_ping_ranges ->
+  forall n1 n2, draw_ok (fst r) (snd r) (Z.of_nat n1) = true -> draw_ok (fst r) (snd r) (Z.of_nat n2) = true ->
+  forall k nC nPad, nC <> O ->
+    frame_set (built k n1 nC nPad) = frame_set (built k n2 nC nPad).
+Proof.
+  intros r Hin n1 n2 H1 H2. apply (ping_range_stable (fst r) (snd r)); try assumption.
+  pose proof parrots_ping_ranges_ok as H. rewrite forallb_forall in H. apply (H r Hin).
+Qed.
